@@ -51,6 +51,42 @@ def rt_replay(w):
     return {"reproduced": False}
 
 
+def converged_fit_replay(w):
+    """a fit that is allowed to CONVERGE (the bounded family uses 3..10 iterations, where lmfit aborts) with the optimum of M on
+    its upper limit: the user states a maximum resource in place below the truth.  Returned values and the limits recorded in
+    result.params must be the declared ones."""
+    import warnings
+    import numpy as np
+    import pandas as pd
+    warnings.simplefilter("ignore")
+    try:
+        fp_mod = __import__("bluebonnet.forecast.forecast_pressure", fromlist=["x"])
+        flow = __import__("bluebonnet.flow", fromlist=["x"])
+        pvt = pd.read_csv("/repo/tests/data/pvt_gas.csv").rename(columns={"P": "pressure", "Z-Factor": "z-factor", "Cg": "compressibility", "Viscosity": "viscosity", "Density": "density"})
+        n_ = 40
+        days = np.arange(n_, dtype=float)
+        pff = np.where(days < 15, 3000.0, np.where(days < 28, 2200.0, 1500.0))
+        r = flow.SinglePhaseReservoir(80, 6000.0, 6000.0, flow.FlowProperties(pvt, 6000.0))
+        r.simulate(days / 150.0, pressure_fracface=pff)
+        cum = 2000.0 * np.asarray(r.recovery_factor(), dtype=float)
+        gas = np.diff(cum, prepend=0.0)
+        gas[0] = gas[1]
+        table = pd.DataFrame({"Days": days, "Gas": gas, "Pressure": pff})
+        cum_obs = np.cumsum(gas)
+        for inplace_max, filt in ((1.02 * cum_obs[-1], True), (1.10 * cum_obs[-1], False)):
+            res = fp_mod.fit_production_pressure(table.copy(), pvt, 5000.0, pressure_imax=9000.0, inplace_max=inplace_max, filter_zero_prod_days=filt, n_iter=1500)
+            want = {"tau": (30.0, 2.0 * (n_ - 1)), "M": (float(cum_obs[-2]), float(inplace_max)), "p_initial": (float(pff.max()), 9000.0)}
+            for k_, (lo, hi) in want.items():
+                par = res.params[k_]
+                tol = 1e-9 * max(1.0, abs(hi))
+                if not (lo - tol <= par.value <= hi + tol) or not (abs(par.min - lo) <= tol and abs(par.max - hi) <= tol):
+                    return {"reproduced": True, "input": {"well": "synthetic, 40 daily rows, three frac-face pressure levels, true M = 2000", "inplace_max": float(inplace_max), "pressure_imax": 9000.0, "filter_zero_prod_days": filt, "n_iter": 1500},
+                            "observed": {"parameter": k_, "value": float(par.value), "recorded limits": [float(par.min), float(par.max)]}, "required": {"declared limits": [lo, hi], "value": "inside them"}}
+    except Exception as e:  # noqa: BLE001
+        return {"reproduced": True, "input": {"well": "synthetic, 40 daily rows"}, "observed": f"{type(e).__name__}: {e}", "required": "a fit"}
+    return rt_replay(w)
+
+
 def two_wells_replay(w):
     """hidden state across data sets: objective of well B evaluated after well A must equal the forward model"""
     import warnings
@@ -292,8 +328,8 @@ def build(ctx):
             return with_models(v, o)
         return run
 
-    obs.append(Obligation("fit.limits", "declared limits: tau in [30, 2 (n-1)], M in [cum[n-2], inplace_max], p_initial in [max frac-face pressure, pressure_imax]; the fitted values returned lie within them [no row filter]", fit_limits(False), [FIT], "SMT", rt_replay))
-    obs.append(Obligation("fit.limits.filtered", "the same on the filtered rows", fit_limits(True), [FIT], "SMT", rt_replay))
+    obs.append(Obligation("fit.limits", "declared limits: tau in [30, 2 (n-1)], M in [cum[n-2], inplace_max], p_initial in [max frac-face pressure, pressure_imax]; the fitted values returned lie within them [no row filter]", fit_limits(False), [FIT], "SMT", converged_fit_replay))
+    obs.append(Obligation("fit.limits.filtered", "the same on the filtered rows", fit_limits(True), [FIT], "SMT", converged_fit_replay))
 
     def canary():
         o, outs = run_obj()
